@@ -310,6 +310,53 @@ def repeated_registration(col, contract):
                                instances, contract, label)
 
 
+def ephemeral_classes(col, contract):
+    """classes created at run time, looked up once and dropped (and collected), in turn of different kinds, on ONE registry
+    without any register() call in between: each lookup is decided by the class at hand, whatever was looked up before at
+    the same memory address (the contract recomputes every lookup without the memo)"""
+    import gc
+    for gname, g in (('Glommer()', Glommer()), ('Glommer(register_default_types=False)', None)):
+        if g is None:
+            g = Glommer(register_default_types=False)
+            g.register(dict, get=lambda o, k: ('dict-handler', o[k]))
+            g.register(object, get=lambda o, k: ('object-handler', getattr(o, k)))
+        for i in range(400):
+            kind = ('dict', 'obj', 'list', 'dict')[i % 4] if i % 7 else 'obj'
+            if kind == 'dict':
+                cls = type('EphemeralD', (dict,), {})
+                inst = cls(x=i)
+                want = i
+            elif kind == 'list':
+                cls = type('EphemeralL', (list,), {})
+                inst = cls([i])
+                want = i
+            else:
+                cls = type('EphemeralO', (), {})
+                inst = cls()
+                inst.x = i
+                want = i
+            spec = '0' if kind == 'list' else 'x'
+            got = call(g.glom, inst, spec)
+            col.case(('ephemeral', gname, kind), True)
+            col.count('api_lookups')
+            col.count('ephemeral_class_lookups')
+            val = got.value[1] if got.ok and isinstance(got.value, tuple) and len(got.value) == 2 and isinstance(got.value[0], str) else (got.value if got.ok else None)
+            if gname != 'Glommer()' and kind == 'list':
+                ok = True       # (no list registration there: object-handler getattr('0') fails, either way not the point)
+            else:
+                ok = got.ok and val == want
+            if not ok:
+                col.violation('C13/lookup-depends-on-an-earlier-class-at-the-same-address',
+                              '%s: lookup #%d, a fresh %s-kind class: %r, expected %r' % (gname, i, kind, got, want), None)
+                break
+            del inst, cls
+            gc.collect()
+        if contract.disagreements:
+            d = contract.disagreements[0]
+            col.violation('C13/contract:%s:ephemeral-classes' % d['op'], 'get_handler post-condition failed: %s' % d, d)
+            del contract.disagreements[:]
+
+
 def glommer_driver(default_types):
     def make():
         g = Glommer(register_default_types=default_types)
@@ -479,6 +526,7 @@ def run(ctx):
             isolation(col, rng)
             reregistration(col, contract)
             repeated_registration(col, contract)
+            ephemeral_classes(col, contract)
         fams = families()
         for name, registrable, classes in fams:
             instances = [make_instance(c) for c in classes]
